@@ -1,10 +1,14 @@
 package main
 
 import (
+	"net"
+
 	"bufio"
 	"encoding/json"
 	"flag"
 	"fmt"
+	"github.com/nextdns/nextdns/arp"
+	"github.com/nextdns/nextdns/ndp"
 	"os"
 	"path/filepath"
 	"sort"
@@ -68,6 +72,16 @@ func main() {
 		os.Exit(2)
 	}
 	area := os.Args[1]
+	// the host's neighbour tables, which query.New consults for every query (MAC of a LAN peer, address of a MAC sent by
+	// a forwarder on loopback): a few complete entries that no generated peer or MAC option equals, so that the lookups
+	// walk real entries without changing any result (the sandbox's own tables are empty)
+	arp.VerifSetTable(arp.Table{
+		{IP: net.IPv4(10, 250, 0, 1), MAC: net.HardwareAddr{0x02, 0x00, 0x5e, 0xaa, 0xbb, 0x01}},
+		{IP: net.IPv4(10, 250, 0, 2), MAC: net.HardwareAddr{0x02, 0x00, 0x5e, 0xaa, 0xbb, 0x02}},
+	})
+	ndp.VerifSetTable(ndp.Table{
+		{IP: net.ParseIP("fd00:250::1"), MAC: net.HardwareAddr{0x02, 0x00, 0x5e, 0xaa, 0xbb, 0x03}},
+	})
 	fs := flag.NewFlagSet(area, flag.ExitOnError)
 	seed := fs.Uint64("seed", 1, "seed")
 	n := fs.Int("n", 1000, "number of cases")
